@@ -51,4 +51,5 @@ MUTANTS = [
  dict(id="C03-isub-dispatch-add", property="C03", file=PQ, old="            return self._iadd_sub(other, operator.isub)", new="            return self._iadd_sub(other, operator.iadd)", expect="PlainQuantity.__isub__|dispatches"),
  dict(id="C03-rsub-not-negated", property="C03", file=PQ, old="        return -self._add_sub(other, operator.sub)", new="        return self._add_sub(other, operator.sub)", expect="__rsub__|negated-difference"),
  dict(id="C03-benign-temp-var", property="C03", file=PQ, kind="benign", old="            magnitude = other._magnitude // self.to(other._units)._magnitude", new="            mine = self.to(other._units)\n            magnitude = other._magnitude // mine._magnitude", expect=""),
+ dict(id="C03-ipow-array-exponent-raw-magnitude", property="C03", file=PQ, old='                        self._magnitude = self.m_as("") ** other.m_as("")\n', new='                        self._magnitude = self.m_as("") ** other._magnitude\n', expect="__ipow__|exponent-is-root-magnitude-or-bare-number"),
 ]
